@@ -307,26 +307,35 @@ def run_batch(scratch, obs, fs, jobs, log_dir, mem_gb=7.0):
         os.makedirs(log_dir, exist_ok=True)
         with open(os.path.join(log_dir, "batch-w%d-fs%d@%s.log" % (obs[0].weight, obs[0].fs, fs.replace(",", "+"))), "w") as f:
             f.write(out)
-    # split into per-thread blocks
-    events = []  # (pos, thread, harness or None)
-    for m in _THREAD_START.finditer(out):
-        events.append((m.start(), int(m.group(1)), m.group(2)))
-    for m in re.finditer(r"^Thread (\d+): *$", out, re.M):
-        events.append((m.start(), int(m.group(1)), None))
-    events.sort()
-    current = {}
+    # split into per-harness blocks; with -j 1 kani prints no "Thread N:" prefixes
     blocks = {}
-    for i, (pos, th, h) in enumerate(events):
-        end = events[i + 1][0] if i + 1 < len(events) else len(out)
-        m2 = re.search(r"^Manual Harness Summary", out[pos:end], re.M)
-        if m2:
-            end = pos + m2.start()
-        if h is not None:
-            current[th] = h
-        else:
-            hn = current.get(th)
-            if hn:
-                blocks[hn] = out[pos:end]
+    if re.search(r"^Thread \d+: Checking harness", out, re.M):
+        events = []  # (pos, thread, harness or None)
+        for m in _THREAD_START.finditer(out):
+            events.append((m.start(), int(m.group(1)), m.group(2)))
+        for m in re.finditer(r"^Thread (\d+): *$", out, re.M):
+            events.append((m.start(), int(m.group(1)), None))
+        events.sort()
+        current = {}
+        for i, (pos, th, h) in enumerate(events):
+            end = events[i + 1][0] if i + 1 < len(events) else len(out)
+            m2 = re.search(r"^Manual Harness Summary", out[pos:end], re.M)
+            if m2:
+                end = pos + m2.start()
+            if h is not None:
+                current[th] = h
+            else:
+                hn = current.get(th)
+                if hn:
+                    blocks[hn] = out[pos:end]
+    else:
+        starts = [(m.start(), m.group(1)) for m in re.finditer(r"^Checking harness (\S+?)\.\.\.\s*$", out, re.M)]
+        for i, (pos, hn) in enumerate(starts):
+            end = starts[i + 1][0] if i + 1 < len(starts) else len(out)
+            m2 = re.search(r"^Manual Harness Summary", out[pos:end], re.M)
+            if m2:
+                end = pos + m2.start()
+            blocks[hn] = out[pos:end]
     results = {}
     short_cmd = " ".join(cmd[:8] + ["--harness", "<each>", "--exact", "-j", str(jobs), "--output-format", "terse"])
     for o in obs:
